@@ -7,6 +7,7 @@ package restful
 import (
 	"encoding/json"
 	"encoding/xml"
+	"sort"
 	"strings"
 	"sync"
 )
@@ -73,9 +74,15 @@ func (r *entityReaderWriters) accessorAt(mime string) (EntityReaderWriter, bool)
 	if !ok {
 		// retry with reverse lookup
 		// more expensive but we are in an exceptional situation anyway
-		for k, v := range r.accessors {
+		// the registered types are visited in sorted order, so that the same value always finds the same accessor
+		keys := make([]string, 0, len(r.accessors))
+		for k := range r.accessors {
+			keys = append(keys, k)
+		}
+		sort.Strings(keys)
+		for _, k := range keys {
 			if strings.Contains(mime, k) {
-				return v, true
+				return r.accessors[k], true
 			}
 		}
 	}
